@@ -68,7 +68,7 @@ def gen_case(rnd, tier, index):
     leaf = [a for a in anc if not wbgen.is_formula_cell(dag.cell[a]) and a not in pinned]
     # (a formula that names its own cell - ROW() - is its own dependant and is not frozen)
     buried = [a for a in anc if wbgen.is_formula_cell(dag.cell[a]) and 'cse' not in dag.cell[a]
-              and 'ROW()' not in dag.cell[a]['f'] and 'COLUMN()' not in dag.cell[a]['f']]
+              and not _names_own_cell(dag.cell[a]['f'])]
     # ranges written literally by formulas the outputs reach, made of constants only
     wranges = []
     for a in list(anc) + outputs:
@@ -194,6 +194,12 @@ def gen_case(rnd, tier, index):
     return legalise({'spec': spec, 'cfg': cfg, 'ops': ops})
 
 
+def _names_own_cell(formula):
+    """ROW() / COLUMN() without an argument, however it is typed"""
+    f = ''.join(formula.split())
+    return 'ROW()' in f or 'COLUMN()' in f
+
+
 def draw_num(rnd):
     return rnd.choice((0, 1, 2, -3, 7, 0.5, 12.25, 100, -1.5))
 
@@ -228,8 +234,7 @@ def legalise(case):
                     others.update(wbgen.flat_range(b) if ':' in b else [b])
             if others & st.dag.ancestors(a, declared=True):
                 continue
-            if 'cse' in st.dag.cell[a] or 'ROW()' in st.dag.cell[a]['f'] or \
-                    'COLUMN()' in st.dag.cell[a]['f']:
+            if 'cse' in st.dag.cell[a] or _names_own_cell(st.dag.cell[a]['f']):
                 continue
         ok_inputs.append(a)
     inputs = ok_inputs
